@@ -409,6 +409,8 @@ def join_val(a, b, depth=0):
         def j(x, y):
             if x is None or y is None:
                 return None
+            if isinstance(x, tuple) or isinstance(y, tuple):      # source location of a slice iterator
+                return x if x == y else None
             return join_val(x, y, depth + 1)
         keep = a.pos is not None and a.pos == b.pos and a.cells == b.cells
         seen, last = _join_seen(a, b, lambda x, y: join_val(x, y, depth + 1))
@@ -463,6 +465,8 @@ def widen_val(old, new, thresholds):
         def w(x, y):
             if x is None or y is None:
                 return None
+            if isinstance(x, tuple) or isinstance(y, tuple):
+                return x if x == y else None
             return widen_val(x, y, thresholds)
         keep = old.pos is not None and old.pos == new.pos and old.cells == new.cells
         seen, last = _join_seen(old, new, lambda x, y: widen_val(x, y, thresholds))
@@ -519,6 +523,8 @@ def leq_val(a, b):
                 return True
             if x is None:
                 return False
+            if isinstance(x, tuple) or isinstance(y, tuple):
+                return x == y
             return leq_val(x, y)
         if b.pos is not None and (a.pos != b.pos or a.cells != b.cells):
             return False
